@@ -28,6 +28,7 @@ import (
 	"net"
 	"os"
 	"strings"
+	"syscall"
 	"testing"
 	"time"
 
@@ -75,9 +76,30 @@ type c19Cfg struct {
 	// serverHost: the server's IP literal as written in the configuration ("" = 10.9.8.7). "Goes to
 	// the server IP" holds for an IPv6 server as well (added after the independently seeded change
 	// C19-8: the address list was built from IP.To4(), nil for a genuine IPv6 address).
-	serverHost           string
+	serverHost string
+	// refuseWrites: the environment's ANSWER to a send - every WriteTo on an inner socket may be
+	// refused with one of c19RefuseKinds (environment choice "send-refused": which send, which
+	// error), as the local network stack refuses single datagrams; nothing leaves from the refusing
+	// socket. "Every packet goes out from the newest local socket" then means that the packet does
+	// not leave at all and the caller sees an error. (Added after the independently seeded change
+	// C19-10: after a hop, WriteTo answered a non-timeout error of the newest socket by sending the
+	// packet from the previous, draining socket and swallowed the error.)
+	refuseWrites         bool
 	portKind, jitterKind vsched.ChoiceKind
 	quick, thorough      explore.Bounds
+}
+
+// c19RefuseKinds: the errors an inner socket refuses a datagram with (cfg.refuseWrites): the
+// permanent errors a UDP send returns without anything going on the wire, and an expired write
+// deadline.
+var c19RefuseKinds = []struct {
+	name string
+	err  error
+}{
+	{"EPERM", &net.OpError{Op: "write", Net: "udp", Err: os.NewSyscallError("sendto", syscall.EPERM)}},
+	{"ENETUNREACH", &net.OpError{Op: "write", Net: "udp", Err: os.NewSyscallError("sendto", syscall.ENETUNREACH)}},
+	{"ENOBUFS", &net.OpError{Op: "write", Net: "udp", Err: os.NewSyscallError("sendto", syscall.ENOBUFS)}},
+	{"timeout", vnet.ErrTimeout},
 }
 
 type c19Inj struct {
@@ -102,6 +124,7 @@ type c19World struct {
 	tclosing      bool // transportClose sequence started: the reader stops at the next timeout
 	polls         int  // read deadlines the poller let expire so far
 	sent          map[string]int
+	refused       map[string]error // payload -> the error an inner socket refused it with (cfg.refuseWrites)
 	injected      []c19Inj
 	injectedSet   map[string]bool
 	delivered     map[string]int
@@ -143,12 +166,34 @@ func (w *c19World) listen() (net.PacketConn, error) {
 	idx := len(w.socks)
 	s := vnet.NewPacketConn(fmt.Sprintf("s%d", idx), 40000+idx)
 	s.OnSend = func(_ *vnet.PacketConn, p vnet.Packet) { w.onSend(idx, p) }
+	if w.cfg.refuseWrites {
+		s.WriteErr = func(_ int, p vnet.Packet) error { return w.refuse(idx, p) }
+	}
 	w.socks = append(w.socks, s)
 	if n := w.open(); n > 3 {
 		e.Fail("%d local sockets open inside a hop (after creating s%d); at most 3 transiently", n, idx)
 	}
 	e.Logf("listen#%d -> s%d (open=%d)", w.listenCalls, idx, w.open())
 	return s, nil
+}
+
+// refuse is the inner sockets' answer to a WriteTo when cfg.refuseWrites is set: success, or one
+// of c19RefuseKinds (environment choice); a refused packet does not leave from that socket.
+func (w *c19World) refuse(idx int, p vnet.Packet) error {
+	k := w.e.Choose(1+len(c19RefuseKinds), vsched.KEnv, "send-refused")
+	if k == 0 {
+		return nil
+	}
+	kind := c19RefuseKinds[k-1]
+	if w.refused == nil {
+		w.refused = map[string]error{}
+	}
+	if newest := len(w.socks) - 1; idx != newest {
+		w.e.Fail("packet %q offered to socket s%d while the newest local socket is s%d", p.Data, idx, newest)
+	}
+	w.refused[string(p.Data)] = kind.err
+	w.e.Logf("send %s: refused by s%d with %s (created=%d)", p.Data, idx, kind.name, len(w.socks))
+	return kind.err
 }
 
 // onSend observes every successful WriteTo on an inner socket.
@@ -177,7 +222,17 @@ func (w *c19World) write(tag string, to net.Addr) {
 	payload := fmt.Sprintf("%s%d", tag, w.seq)
 	closedBefore := w.closeReturned
 	n, err := w.conn.WriteTo([]byte(payload), to)
+	refusedWith := w.refused[payload]
 	switch {
+	case refusedWith != nil:
+		// the newest socket refused the packet: it has not left from any socket and the caller is told
+		if w.sent[payload] != 0 {
+			w.e.Fail("WriteTo(%s): the newest socket refused the packet (%v) but it was sent all the same (%d times)", payload, refusedWith, w.sent[payload])
+		}
+		if err == nil {
+			w.e.Fail("WriteTo(%s) returned n=%d err=nil although the newest socket refused the packet (%v); the caller must see the send fail", payload, n, refusedWith)
+		}
+		w.e.Logf("write %s: error %v", payload, err)
 	case err == nil:
 		if closedBefore {
 			w.e.Fail("WriteTo(%s) succeeded after Close had returned", payload)
@@ -613,7 +668,11 @@ func c19Scenarios() []*explore.Scenario {
 			writer: true, reader: true, closeErrs: true,
 			portKind: vsched.KEnv, jitterKind: vsched.KEnv,
 			quick: explore.Bounds{P: 1, E: 1}, thorough: explore.Bounds{P: 2, E: 1, MaxExec: 600000}},
-		// every sequence of port-index and jitter draws (free choices)
+		// a send refused by the local socket, before the first hop or after one, two or three hops
+		{name: "hop-write-refused-EPERM-ENETUNREACH-ENOBUFS-timeout-3ports", portExpr: "20000-20002", iv: fixed, window: 5500 * time.Millisecond, windows: 3,
+			writer: true, reader: true, refuseWrites: true,
+			portKind: vsched.KEnv, jitterKind: vsched.KEnv,
+			quick: explore.Bounds{P: 1, E: 1}, thorough: explore.Bounds{P: 2, E: 2, MaxExec: 600000}},
 		{name: "hop-draws-range-3ports", portExpr: "20000,20001,20005", iv: ranged, window: 7500 * time.Millisecond, windows: 2,
 			portKind: vsched.KFree, jitterKind: vsched.KFree,
 			quick: explore.Bounds{P: 1, E: 0}, thorough: explore.Bounds{P: 2, E: 0, MaxExec: 600000}},
